@@ -5,8 +5,11 @@
 (*                                                                         *)
 (* A bundle is [base, delta (0 = none), baseFresh, deltaFresh]; ids name   *)
 (* concrete CRLs (DER bytes) minted by the harness.  The entry of a URL is *)
-(*   [kind : "none" | "entry" | "broken", b : bundle]                      *)
-(* "broken" = the stored file is not a well-formed entry.                  *)
+(*   [kind : "none" | "entry" | "broken" | "blocked", b : bundle]          *)
+(* "broken" = the stored file is not a well-formed entry; "blocked" = a    *)
+(* non-empty DIRECTORY sits where the entry file belongs (corruption       *)
+(* "dirAtKey"): reads fail, and so do stores - completely, the directory   *)
+(* stays as it is.                                                         *)
 (***************************************************************************)
 EXTENDS Common
 
@@ -35,16 +38,18 @@ Hit(b) == [kind |-> "hit", base |-> b.base, delta |-> b.delta]
 
 (* Apply(st, o) = [st |-> next state, obs |-> what the caller sees] *)
 Apply(st, o) ==
-  CASE o.op = "Set"    -> [st |-> [st EXCEPT ![o.u] = [kind |-> "entry", b |-> o.b]], obs |-> Ok]
+  CASE o.op = "Set"    -> IF st[o.u].kind = "blocked" THEN [st |-> st, obs |-> Error]
+                          ELSE [st |-> [st EXCEPT ![o.u] = [kind |-> "entry", b |-> o.b]], obs |-> Ok]
     [] o.op = "SetNil" -> [st |-> st, obs |-> Error]
     [] o.op = "Get"    ->
          LET e == st[o.u] IN
          [st |-> st, obs |-> IF e.kind = "none" THEN Miss
-                             ELSE IF e.kind = "broken" THEN Error
+                             ELSE IF e.kind \in {"broken", "blocked"} THEN Error
                              ELSE IF Fresh(e.b) THEN Hit(e.b) ELSE Miss]
     [] o.op = "Corrupt" ->
          LET e == st[o.u] IN
-         IF e.kind = "none" THEN [st |-> st, obs |-> Ok]         \* nothing to corrupt
+         IF e.kind \in {"none", "blocked"} THEN [st |-> st, obs |-> Ok]         \* nothing (left) to corrupt
+         ELSE IF o.k = "dirAtKey" THEN [st |-> [st EXCEPT ![o.u].kind = "blocked"], obs |-> Ok]
          ELSE IF o.k = "swapped"
               \* base and delta fields exchanged: still a syntactically well-formed entry when a delta exists,
               \* and the cache returns what the file says; without a delta the base field is left empty
